@@ -239,6 +239,7 @@ def gen_b(seed, A):
         clashes.append(victim)
     usable_mods = [m for m in A["modules"] if m is not local_clash_mod and by_mod.get(m.name)]
     nb = rng.randint(1, 3)
+    mod_info = []
     for bi in range(nb):
         bname = f"bm{sx}_{bi}"
         bt = T()
@@ -342,6 +343,21 @@ def gen_b(seed, A):
             refs.append({"src": bt, "via": "doc_link_to_own_entity" if e.proj == "B" else "doc_link", "text": e.name, "target": e, "form": "qualified" if ":" in d else "plain"})
         L += [doc] + uses + ["implicit none"] + decl + (["contains"] + contains if contains else []) + [f"end module {bname}"]
         files[f"b{bi}.f90"] = "\n".join(L) + "\n"
+        mod_info.append((bi, bt, set(visible), own))
+    # a bare [[name]] in the documentation of ANOTHER module of B: not found among that module's own contents, so the project-wide
+    # search decides - B's own entity must come before A's entity of the same name
+    own_count = {}
+    for _, _, _, own in mod_info:
+        for n in own:
+            own_count[n] = own_count.get(n, 0) + 1
+    for bi, bt, vis, own in mod_info:
+        for bj, bt2, vis2, own2 in mod_info:
+            if bj == bi:
+                continue
+            for n, oe in own.items():
+                if own_count[n] == 1 and n not in vis2 and n not in own2:
+                    files[f"b{bj}.f90"] = files[f"b{bj}.f90"].replace(f"!! doc {bt2}", f"!! doc {bt2} [[{oe.name}]]", 1)
+                    refs.append({"src": bt2, "via": "doc_link_to_own_entity_of_another_module", "text": oe.name, "target": oe, "form": "plain_elsewhere"})
     return {"files": files, "refs": refs, "clashes": clashes, "ents": ents}
 
 
@@ -672,7 +688,7 @@ def main():
         sys.exit(1 if same else 0)
     thorough = run.tier == "thorough"
     base = run.seed * 100003
-    n = 240 if thorough else 48
+    n = 480 if thorough else 96
     scen = ["healthy", "healthy", "healthy", "healthy", "broken_listed_first", "missing_json", "corrupt_json", "ill_shaped_json", "unreachable"]
     args = [(base + i, scen[i % len(scen)]) for i in range(n)]
     results = core.fork_map(case, args, per_case_fork=False, case_timeout=900, total_timeout=3300)
